@@ -34,6 +34,13 @@ pub fn targeted(seed: u64, tier: &str) -> Vec<Doc> {
                         j * 20, j * 7, 10 + j * 5, 12 + j * 3, 20 + j * 15, 5 + j
                     );
                 }
+                // elements with a zero-width / zero-height box take the fallback paths of the converters
+                for j in 0..rng.below(3) {
+                    body += &format!(
+                        r##"<line id="z{j}" x1="{}" y1="{y}" x2="{}" y2="{y}" stroke="url(#rg)" stroke-width="3" clip-path="url(#cp)" mask="url(#mk)" filter="url(#fl)"/><path id="v{j}" d="M {x} 5 L {x} 40" stroke="url(#pt)" fill="url(#lg)" mask="url(#mk)"/>"##,
+                        5 + j * 3, 60 + j * 9, y = 90 + j * 4, x = 100 + j * 3
+                    );
+                }
                 format!(
                     r##"{HDR}<defs><linearGradient id="lg"><stop offset="0" stop-color="red"/><stop offset="1" stop-color="blue"/></linearGradient><radialGradient id="rg" xlink:href="#lg"/><pattern id="pt" width="0.5" height="0.5" patternContentUnits="{}"><rect width="0.2" height="0.2" fill="url(#lg)"/></pattern><clipPath id="cp" clipPathUnits="objectBoundingBox"><rect width="0.8" height="0.8"/></clipPath><mask id="mk" maskContentUnits="{}"><rect width="1" height="1" fill="white"/></mask><filter id="fl" primitiveUnits="{}"><feFlood flood-color="green" result="a"/><feOffset in="a" dx="0.1" result="b"/><feMerge><feMergeNode in="b"/><feMergeNode in="SourceGraphic"/></feMerge></filter></defs>{body}</svg>"##,
                     units(&mut rng), units(&mut rng), units(&mut rng)
